@@ -19,6 +19,14 @@ def run(tier):
     ex = progs.expand_all(table, behs, core.seed(), layouts)
     behs, ex = progs.drop_skipped(behs, ex)
     pairs = [("5.6", "7.4")] if tier == "quick" else [("5.6", "7.4"), ("5.0", "7.0"), ("5.4", "7.3"), ("5.3", "7.2")]
+    # + every access chain (variables, fetches, calls, new ...) of the shared syntax with a derivation of <= 6 (thorough 7) choices
+    table0, _ = syntax.generate(check, "5", num=1, seed=core.seed(), depth=1)
+    tablec, behsc = syntax.generate(check, "5", rootcat="stmt", rootmax=1, depth=4, allowed=progs.chain_set(table0), exhaustive=True,
+                                    maxchoices=6 if tier == "quick" else 7, timeout=2400)
+    exc = progs.expand_all(tablec, behsc, core.seed(), ["none"])
+    behsc, exc = progs.drop_skipped(behsc, exc)
+    check.cov["exhaustive_access_chains"] = len(behsc)
+    behs, ex = behs + behsc, ex + exc
     tasks, metas = [], []
     for i, (b, e) in enumerate(zip(behs, ex)):
         if not set(e["used"]) <= both:
